@@ -1,6 +1,7 @@
 package main
 
 import (
+	"os"
 	"runtime"
 	"sync"
 	_ "unsafe" // go:linkname
@@ -49,7 +50,7 @@ func flushPools() {
 // happens-before edges between tasks at every hand-over and hide every data
 // race of the code under test from the race detector.
 
-const maxTasks = 16
+const maxTasks = 64
 
 const (
 	stSerial = iota // never pre-empt; on task end the tape picks the next task
@@ -90,6 +91,12 @@ type Sched struct {
 	changeAt [8]int64
 	changeK  int
 	active   bool
+	ambient  bool // the implicit one-task scheduler around everything that runs outside Run()
+	children sync.WaitGroup
+	spawned  int
+	n0       int               // tasks the scheduler started with; slots above are goroutines of the code under test
+	waiting  [maxTasks]bool    // inside a cooperative wait (lock, channel, WaitGroup): poll again later
+	streak   [maxTasks]int64   // consecutive polls without a step of its own
 }
 
 // global (per worker process) reach counters; norace
@@ -144,6 +151,104 @@ func blockHook() {
 	s.block()
 }
 
+// ---- goroutines started by the code under test become tasks of the current scheduler
+
+//go:norace
+func (s *Sched) addTask() int {
+	if s.n0 == 0 {
+		s.n0 = s.n
+	}
+	id := -1
+	for i := s.n0; i < s.n; i++ {
+		if s.done[i] {
+			id = i
+			break
+		}
+	}
+	if id < 0 {
+		if s.n >= maxTasks {
+			return -1
+		}
+		id = s.n
+		s.n++
+	}
+	s.done[id] = false
+	s.waiting[id], s.streak[id] = false, 0
+	s.prio[id] = 1000 + int(s.st.Draw(1000))
+	s.lastSite[id] = 0
+	s.spawned++
+	return id
+}
+
+var spawnedTotal int64
+
+// unsupportedExit: the run cannot be decided by this simulator. Exit 2 (machinery), never a verdict.
+func unsupportedExit(why string) {
+	os.Stderr.WriteString("MACHINERY: construct not under simulator control: " + why + "\n")
+	os.Exit(2)
+}
+
+var childPanics []string
+
+//go:norace
+func noteChildPanic(p interface{}) { childPanics = append(childPanics, stripAddrs(panicText(p))) }
+
+//go:norace
+func goHook(run func()) {
+	s := curSched
+	if s == nil || !s.active || s.token < 0 {
+		panic("goroutine started by the code under test while no scheduler is active")
+	}
+	id := s.addTask()
+	if id < 0 {
+		unsupportedExit("the code under test has more than 64 goroutines alive at once")
+	}
+	spawnedTotal++
+	s.children.Add(1)
+	go func() {
+		defer s.children.Done()
+		s.waitTurn(id)
+		defer s.finish(id)
+		defer func() {
+			// a panic in a goroutine the library started would kill the whole process
+			if p := recover(); p != nil {
+				noteChildPanic(p)
+			}
+		}()
+		run()
+	}()
+}
+
+// newAmbient: task 0 is the calling (main) goroutine, which holds the token; used
+// around every run so that code which starts goroutines or blocks outside an
+// explicit Run() is still under the simulator's control.
+func newAmbient(st *Stream) *Sched {
+	s := &Sched{n: 1, token: 0, strat: Strategy{Kind: stSerial}, st: st, maxSteps: 1 << 40, active: true, ambient: true}
+	return s
+}
+
+// drain lets every goroutine the code under test left behind run to completion.
+//
+//go:norace
+func (s *Sched) pending() bool {
+	for i := 1; i < s.n; i++ {
+		if !s.done[i] {
+			return true
+		}
+	}
+	return false
+}
+
+func (s *Sched) drain() {
+	if !s.ambient {
+		return
+	}
+	for guard := 0; s.pending() && guard < 1<<20; guard++ {
+		s.handTo(0, s.pickOther(0), s.lastSite[0])
+	}
+	s.children.Wait()
+}
+
 func NewSched(n int, strat Strategy, st *Stream, maxSteps int64) *Sched {
 	s := &Sched{n: n, token: -1, strat: strat, st: st, maxSteps: maxSteps}
 	return s
@@ -164,19 +269,30 @@ func (s *Sched) runnableCount() int {
 //
 //go:norace
 func (s *Sched) pickOther(me int) int {
+	// tasks polling in a cooperative wait are chosen only when nobody else can run
 	c := 0
 	for i := 0; i < s.n; i++ {
-		if !s.done[i] && i != me {
+		if !s.done[i] && i != me && !s.waiting[i] {
 			c++
+		}
+	}
+	useWaiting := false
+	if c == 0 {
+		useWaiting = true
+		for i := 0; i < s.n; i++ {
+			if !s.done[i] && i != me {
+				c++
+			}
 		}
 	}
 	if c == 0 {
 		return -1
 	}
-	if s.strat.Kind == stPCT {
+	ok := func(i int) bool { return !s.done[i] && i != me && (useWaiting || !s.waiting[i]) }
+	if s.strat.Kind == stPCT && !useWaiting { // among polling tasks choose at random: priorities would starve all but two of them
 		best := -1
 		for i := 0; i < s.n; i++ {
-			if !s.done[i] && i != me && (best < 0 || s.prio[i] > s.prio[best]) {
+			if ok(i) && (best < 0 || s.prio[i] > s.prio[best]) {
 				best = i
 			}
 		}
@@ -184,7 +300,7 @@ func (s *Sched) pickOther(me int) int {
 	}
 	k := int(s.st.Draw(uint64(c)))
 	for i := 0; i < s.n; i++ {
-		if !s.done[i] && i != me {
+		if ok(i) {
 			if k == 0 {
 				return i
 			}
@@ -215,6 +331,7 @@ func (s *Sched) yield(site int) {
 	inTaskSteps++
 	me := s.token
 	s.lastSite[me] = site
+	s.streak[me] = 0
 	if s.capped {
 		return
 	}
@@ -245,7 +362,7 @@ func (s *Sched) yield(site int) {
 			next := -1
 			for d := 1; d < s.n; d++ {
 				j := (me + d) % s.n
-				if !s.done[j] {
+				if !s.done[j] && !s.waiting[j] {
 					next = j
 					break
 				}
@@ -260,7 +377,7 @@ func (s *Sched) yield(site int) {
 		}
 		best := me
 		for i := 0; i < s.n; i++ {
-			if !s.done[i] && s.prio[i] > s.prio[best] {
+			if !s.done[i] && !s.waiting[i] && s.prio[i] > s.prio[best] {
 				best = i
 			}
 		}
@@ -274,33 +391,21 @@ func (s *Sched) yield(site int) {
 func (s *Sched) block() {
 	me := s.token
 	s.steps++
-	if s.steps > 4*s.maxSteps {
+	s.streak[me]++
+	if s.streak[me] > 200000 {
+		// nobody ever made the condition true: a deadlock of the code under test, or a
+		// blocking rendezvous on an unbuffered channel, which cooperative polling cannot complete
 		s.deadlock = true
-		panic("simulated deadlock: lock never released")
+		unsupportedExit("a task polled a lock / channel / WaitGroup 200000 times without it ever becoming ready (deadlock, or a rendezvous on an unbuffered channel, which the cooperative scheduler does not support)")
 	}
-	next := -1
-	// never the PCT choice here: the highest priority task may be me
-	c := 0
-	for i := 0; i < s.n; i++ {
-		if !s.done[i] && i != me {
-			c++
-		}
-	}
-	if c == 0 {
+	s.waiting[me] = true
+	next := s.pickOther(me)
+	if next < 0 {
 		s.deadlock = true
-		panic("simulated deadlock: lock held by a finished task")
-	}
-	k := int(s.st.Draw(uint64(c)))
-	for i := 0; i < s.n; i++ {
-		if !s.done[i] && i != me {
-			if k == 0 {
-				next = i
-				break
-			}
-			k--
-		}
+		unsupportedExit("the only runnable task waits for a lock / channel / WaitGroup that nobody can release")
 	}
 	s.handTo(me, next, s.lastSite[me])
+	s.waiting[me] = false
 }
 
 //go:norace
@@ -361,6 +466,10 @@ func (s *Sched) Run(tasks []func()) {
 	if len(tasks) != s.n {
 		panic("task count mismatch")
 	}
+	prev := curSched
+	if prev != nil {
+		prev.drain()
+	}
 	curSched = s
 	var wg sync.WaitGroup
 	for i := range tasks {
@@ -376,7 +485,8 @@ func (s *Sched) Run(tasks []func()) {
 	first := s.start()
 	s.controllerWait(first)
 	wg.Wait() // the only real synchronisation, after the last task has finished
-	curSched = nil
+	s.children.Wait()
+	curSched = prev
 }
 
 func drawStrategy(pl *Stream, tier string, allowSerial bool) Strategy {
